@@ -11,8 +11,8 @@
 (* One action per step that the file system, user code or an exception can  *)
 (* observe or interrupt (DESIGN.md Appendix K):                              *)
 (*   StartLoad CheckParams CacheStep OpenFile/SkipOpen Parse Register        *)
-(*   ImportNext/ImportGlobPick/ImportsDone NestedMP Resolve ObjProcs          *)
-(*   ObjProcsDone MainMP Cleanup Repair                                       *)
+(*   ImportNext/ImportGlobHits/ImportGlobPick/ImportsDone NestedMP Resolve   *)
+(*   ObjProcs ObjProcsDone MainMP Cleanup Repair                             *)
 (*                                                                         *)
 (* The scenario `sc` (chosen in Init) is the file system and the metamodel  *)
 (* configuration; everything in it is JSON-shaped (sequences, strings,      *)
@@ -36,12 +36,15 @@
 EXTENDS Naturals, Sequences, FiniteSets, TLC, Json
 
 CONSTANTS
-  Scenarios,   \* set of scenario records
-  DevSets      \* set of deviation sets to explore ({{}} = documented semantics)
+  ScSeq,       \* sequence of scenario records (a behaviour runs one of them)
+  Listed,      \* deviation clauses that may be switched on ({} = documented semantics)
+  Force        \* TRUE: a listed clause is always taken (vacuity runs);
+               \* FALSE: at every point where a listed clause would change the result
+               \*        the behaviour branches into the documented and the deviating one
 
 VARIABLES
-  sc,          \* the scenario
-  dev,         \* deviation clauses switched on in this behaviour
+  sc,          \* the scenario of this behaviour (an element of ScSeq)
+  dev,         \* deviation clauses that have changed something in this behaviour
   step,        \* number of finished session operations
   fault,       \* the scenario's fault is still in the file system
   stack,       \* load frames, innermost last
@@ -184,13 +187,14 @@ Purge(ra, cr) == [g \in {h \in DOMAIN ra : ra[h] \notin cr} |-> ra[g]]
 
 ----------------------------------------------------------------------------
 InitRest ==
-  /\ dev \in DevSets
+  /\ dev = {}
   /\ step = 0 /\ fault = TRUE /\ stack = <<>>
   /\ models = <<>> /\ repoAll = <<>> /\ repoLocal = <<>>
   /\ opens = [f \in Range(sc.files) |-> 0]
   /\ created = {} /\ before = <<>> /\ outcome = Pending /\ hist = <<>>
 
-Init == sc \in Scenarios /\ InitRest
+\* (the bound S holds the evaluated sequence: TLC would re-evaluate ScSeq at every use)
+Init == (\E S \in {ScSeq} : \E i \in 1..Len(S) : sc = S[i]) /\ InitRest
 
 \* the failing file is corrected between two loads
 Repair ==
@@ -292,9 +296,19 @@ ImportNext ==
         ELSE DoImport(s, fr2, reg)
   /\ UNCHANGED <<sc, dev, step, fault, models, opens, created, before, outcome, hist>>
 
-\* the file system decides the order of globbed files
+\* Globbed files that are already visible or known need no load; in which order they are
+\* met is unobservable (a file once known stays known during a load), so they are taken
+\* first and together.  For the others the file system decides the order.
+GlobHits == {g \in Top.gl : g \in repoLocal[Top.m] \/ g \in DOMAIN repoAll}
+
+ImportGlobHits ==
+  /\ ~Idle /\ Top.pc = "imports" /\ GlobHits # {}
+  /\ repoLocal' = [repoLocal EXCEPT ![Top.m] = @ \cup GlobHits]
+  /\ stack' = WithTop([Top EXCEPT !.gl = @ \ GlobHits])
+  /\ UNCHANGED <<sc, dev, step, fault, models, repoAll, opens, created, before, outcome, hist>>
+
 ImportGlobPick ==
-  /\ ~Idle /\ Top.pc = "imports" /\ Top.gl # {}
+  /\ ~Idle /\ Top.pc = "imports" /\ Top.gl # {} /\ GlobHits = {}
   /\ \E g \in Top.gl : DoImport(g, [Top EXCEPT !.gl = @ \ {g}], repoAll)
   /\ UNCHANGED <<sc, dev, step, fault, models, opens, created, before, outcome, hist>>
 
@@ -318,17 +332,22 @@ NestedMP ==
           /\ UNCHANGED outcome
   /\ UNCHANGED <<sc, dev, step, fault, models, repoAll, opens, created, before, hist>>
 
+\* Deviation clauses: D ranges over the sets of applicable listed clauses; outside
+\* vacuity runs only sets are taken in which every clause changes the result
+DevChoices(App) == IF Force THEN {Listed \cap App} ELSE SUBSET (Listed \cap App)
+Effective(D, F(_)) == {c \in D : F(D \ {c}) # F(D)}
+
 \* where an error about reference i of model m is located (C28)
 DocLoc(m, i) == [file |-> FileLabel(m), line |-> RefLine(m, i), col |-> RefCol(m)]
 RefOff(m, i) == Off(ModelLens(m), RefLine(m, i), RefCol(m))
-UnresolvableLoc(m, i, mainm) ==
-  LET lc == IF "UnresolvableUsesMainParser" \in dev
+UnresolvableLoc(m, i, mainm, D) ==
+  LET lc == IF "UnresolvableUsesMainParser" \in D
             THEN LineColIn(ModelLens(mainm), RefOff(m, i))
             ELSE <<RefLine(m, i), RefCol(m)>>
-  IN [file |-> IF "UnresolvableWithoutFilename" \in dev THEN NoneFile ELSE FileLabel(m),
+  IN [file |-> IF "UnresolvableWithoutFilename" \in D THEN NoneFile ELSE FileLabel(m),
       line |-> lc[1], col |-> lc[2]]
-NotUniqueLoc(m, i, x) ==
-  IF "NotUniqueUsesForeignParser" \in dev
+NotUniqueLoc(m, i, x, D) ==
+  IF "NotUniqueUsesForeignParser" \in D
   THEN LET lc == LineColIn(ModelLens(x), RefOff(m, i)) IN
        [file |-> FileLabel(x), line |-> lc[1], col |-> lc[2]]
   ELSE DocLoc(m, i)
@@ -345,15 +364,25 @@ Resolve ==
      IN IF U \cup N # {}
         THEN \* raised at the first attempt on such a reference
              /\ \/ \E r \in U : LET l == DocLoc(r[1], r[2]) IN
-                     Fail(ErrRes("unknown", l.file, l.line, l.col, <<r[1].f, RefLine(r[1], r[2])>>), FALSE)
+                     /\ Fail(ErrRes("unknown", l.file, l.line, l.col, <<r[1].f, RefLine(r[1], r[2])>>), FALSE)
+                     /\ UNCHANGED dev
                 \/ \E r \in N : \E x \in Dups(r[1], r[2]) :
-                     LET l == NotUniqueLoc(r[1], r[2], x) IN
-                     Fail(ErrRes("notunique", l.file, l.line, l.col, <<r[1].f, RefLine(r[1], r[2])>>), FALSE)
+                   \E D \in DevChoices({"NotUniqueUsesForeignParser"}) :
+                     LET L(DD) == NotUniqueLoc(r[1], r[2], x, DD)
+                         l == L(D) IN
+                     /\ Force \/ Effective(D, L) = D
+                     /\ dev' = dev \cup Effective(D, L)
+                     /\ Fail(ErrRes("notunique", l.file, l.line, l.col, <<r[1].f, RefLine(r[1], r[2])>>), FALSE)
              /\ UNCHANGED models
         ELSE IF P # {}
         THEN \* no progress: the references still postponed are unresolvable
-             /\ \E r \in P : LET l == UnresolvableLoc(r[1], r[2], Top.m) IN
-                  Fail(ErrRes("unresolvable", l.file, l.line, l.col, <<r[1].f, RefLine(r[1], r[2])>>), FALSE)
+             /\ \E r \in P :
+                \E D \in DevChoices({"UnresolvableWithoutFilename", "UnresolvableUsesMainParser"}) :
+                  LET L(DD) == UnresolvableLoc(r[1], r[2], Top.m, DD)
+                      l == L(D) IN
+                  /\ Force \/ Effective(D, L) = D
+                  /\ dev' = dev \cup Effective(D, L)
+                  /\ Fail(ErrRes("unresolvable", l.file, l.line, l.col, <<r[1].f, RefLine(r[1], r[2])>>), FALSE)
              /\ UNCHANGED models
         ELSE /\ models' = [x \in DOMAIN models |->
                              IF x \in created
@@ -361,8 +390,8 @@ Resolve ==
                                                               Targets(x, models[x].refs[i])]]
                              ELSE models[x]]
              /\ stack' = WithTop([Top EXCEPT !.pc = "objprocs", !.left = created])
-             /\ UNCHANGED outcome
-  /\ UNCHANGED <<sc, dev, step, fault, repoAll, repoLocal, opens, created, before, hist>>
+             /\ UNCHANGED <<outcome, dev>>
+  /\ UNCHANGED <<sc, step, fault, repoAll, repoLocal, opens, created, before, hist>>
 
 \* object processors, model by model
 ObjProcs(m) ==
@@ -382,12 +411,16 @@ ObjProcsDone ==
 \* NoCleanupOnModelProcessorFailure is what metamodel.internal_model_from_file does.
 MainMP ==
   /\ ~Idle /\ Top.pc = "main_mp"
-  /\ UNCHANGED <<sc, dev, fault, models, repoAll, repoLocal, opens, created, before>>
+  /\ UNCHANGED <<sc, fault, models, repoAll, repoLocal, opens, created, before>>
   /\ IF MPFails(Top.m)
-     THEN /\ Fail(ErrRes("modelproc", NoneFile, 0, 0, <<Top.file, 0>>),
-                  "NoCleanupOnModelProcessorFailure" \in dev)
+     THEN LET c == "NoCleanupOnModelProcessorFailure"
+              matters == Purge(repoAll, created) # repoAll IN
+          /\ \E nc \in (IF c \in Listed /\ matters THEN (IF Force THEN {TRUE} ELSE {FALSE, TRUE})
+                         ELSE {FALSE}) :
+                /\ Fail(ErrRes("modelproc", NoneFile, 0, 0, <<Top.file, 0>>), nc)
+                /\ dev' = IF nc THEN dev \cup {c} ELSE dev
           /\ UNCHANGED <<step, hist>>
-     ELSE Finish(OkRes(Top.m))
+     ELSE Finish(OkRes(Top.m)) /\ UNCHANGED dev
 
 \* the exception handlers: no model of this attempt stays in a repository
 Cleanup ==
@@ -396,10 +429,14 @@ Cleanup ==
   /\ UNCHANGED <<sc, dev, fault, models, repoLocal, opens, created, before>>
   /\ Finish(outcome)
 
+\* a finished session stutters (every other state must have a successor)
+Stutter == Idle /\ step = Len(sc.session) /\ UNCHANGED vars
+
 Next ==
+  \/ Stutter
   \/ Repair \/ StartLoad \/ CheckParams \/ CacheStep
   \/ \E f \in Files : OpenFile(f)
-  \/ SkipOpen \/ Parse \/ Register \/ ImportNext \/ ImportGlobPick \/ ImportsDone
+  \/ SkipOpen \/ Parse \/ Register \/ ImportNext \/ ImportGlobHits \/ ImportGlobPick \/ ImportsDone
   \/ NestedMP \/ Resolve
   \/ \E m \in DOMAIN models : ObjProcs(m)
   \/ ObjProcsDone \/ MainMP \/ Cleanup
@@ -465,10 +502,8 @@ C28_Location ==
        \* the position is the one a parser of that file's text computes
        /\ LineColIn(TextOf(f), Off(TextOf(f), ln, c)) = <<ln, c>>
 
-\* no load is left unfinished
-Terminates == (step = Len(sc.session) /\ Idle) \/ ENABLED Next
-
 \* emitted once per finished behaviour: what the implementation must show
 Done == Idle /\ step = Len(sc.session)
 EmitOut == Done => PrintT("OUT|" \o ToJson([id |-> sc.id, dev |-> dev, hist |-> hist]))
+
 =============================================================================
